@@ -44,6 +44,21 @@ pub fn gen_program(rng: &mut Rng, thorough: bool) -> Vec<Vec<Op>> {
         .collect()
 }
 
+/// contended consumers: thread 0 fills the queue first (the schedule runs it alone until its pushes are done),
+/// then several threads pop / conditionally pop at the same time
+pub fn gen_contended(rng: &mut Rng, thorough: bool) -> (Vec<Vec<Op>>, usize) {
+    let m = 3 + rng.below(if thorough { 5 } else { 3 }) as usize;
+    let nt = 3 + rng.below(2) as usize;
+    let mut t0: Vec<Op> = (1..=m as u64).map(Op::Push).collect();
+    t0.push(Op::Pop);
+    let mut prog = vec![t0];
+    for _ in 1..nt {
+        let n = 1 + rng.below(3) as usize;
+        prog.push((0..n).map(|_| if rng.chance(1, 2) { Op::Pop } else { Op::PopIf(m as u64 + 1 + rng.below(2)) }).collect());
+    }
+    (prog, m)
+}
+
 pub fn encode(prog: &[Vec<Op>]) -> Vec<i64> {
     let mut out = vec![];
     for t in prog {
@@ -61,6 +76,11 @@ pub fn encode(prog: &[Vec<Op>]) -> Vec<i64> {
 
 /// runs one case; returns the case line and the popped values per thread (for the FIFO monitor)
 pub fn run_case(prog: &[Vec<Op>], rng: &mut Rng, script: Option<Vec<usize>>) -> (String, Vec<String>) {
+    run_case_prefill(prog, rng, script, 0)
+}
+
+/// `prefill`: thread 0 runs alone until it has completed that many operations
+pub fn run_case_prefill(prog: &[Vec<Op>], rng: &mut Rng, script: Option<Vec<usize>>, prefill: usize) -> (String, Vec<String>) {
     let collector = Collector::new();
     let q = Arc::new(VQueue::new());
     let sentinel = q.head_addr();
@@ -113,6 +133,19 @@ pub fn run_case(prog: &[Vec<Op>], rng: &mut Rng, script: Option<Vec<usize>>) -> 
     let nt = prog.len();
     let res = match script {
         Some(s) => sched::run(bodies, enabled, 100_000, &mut policy::scripted(s)),
+        None if prefill > 0 => {
+            let mut r2 = Rng::new(rng.next());
+            let mut chooser = move |r: &[usize], _k: usize, trace: &[sched::Step]| {
+                let done = trace.iter().filter(|st| st.tid == 0).map(|st| st.obs.iter().filter(|o| o.0 == 2000).count()).sum::<usize>();
+                if done < prefill {
+                    if let Some(i) = r.iter().position(|&t| t == 0) {
+                        return i;
+                    }
+                }
+                r2.below(r.len() as u64) as usize
+            };
+            sched::run_observed(bodies, enabled, 100_000, &mut chooser)
+        }
         None => {
             if rng.chance(1, 2) {
                 sched::run(bodies, enabled, 100_000, &mut policy::uniform(rng))
@@ -144,8 +177,109 @@ pub fn run_case(prog: &[Vec<Op>], rng: &mut Rng, script: Option<Vec<usize>>) -> 
         steps.push(out);
     }
     let _ = &mut pushed_order;
+    monitor.extend(history_monitor(&res.trace));
     if res.panicked.iter().any(|&p| p) {
         monitor.push("PROPFAIL C17 a model thread panicked".to_string());
     }
     (case_line("queue", &encode(prog), &sched_of(&res.trace), &steps), monitor)
+}
+
+
+/// Model-independent checks of the recorded history against a sequential FIFO queue (necessary conditions of
+/// linearizability, enough to exhibit: a conditional pop returning an element its predicate rejects, a lost or
+/// duplicated element, a reordering, an "empty" answer while an acceptable element was in the queue all along).
+fn history_monitor(trace: &[sched::Step]) -> Vec<String> {
+    #[derive(Clone, Debug)]
+    struct O {
+        tid: usize,
+        kind: usize, // 0 push, 1 pop, 2 pop_if
+        arg: usize,
+        res: Option<usize>, // popped value
+        start: usize,
+        end: usize,
+    }
+    let mut open: std::collections::HashMap<usize, O> = std::collections::HashMap::new();
+    let mut ops: Vec<O> = vec![];
+    for (k, st) in trace.iter().enumerate() {
+        for &(site, a, b) in &st.obs {
+            if site == 1 && a <= 2 {
+                open.insert(st.tid, O { tid: st.tid, kind: a, arg: b, res: None, start: k, end: usize::MAX });
+            } else if site == 2000 {
+                if let Some(mut o) = open.remove(&st.tid) {
+                    o.end = k;
+                    if a == 1 {
+                        o.res = Some(b);
+                    }
+                    ops.push(o);
+                }
+            }
+        }
+    }
+    let mut out = vec![];
+    let push_of = |v: usize| ops.iter().find(|o| o.kind == 0 && o.arg == v);
+    // pushes still open at the end of the trace count as started
+    let open_push = |v: usize| open.values().find(|o| o.kind == 0 && o.arg == v).map(|o| o.start);
+    let popper = |v: usize| ops.iter().filter(|o| o.kind != 0 && o.res == Some(v)).collect::<Vec<_>>();
+    for o in ops.iter().filter(|o| o.kind != 0) {
+        if let Some(v) = o.res {
+            let ps = push_of(v).map(|p| p.start).or(open_push(v));
+            match ps {
+                None => out.push(format!("PROPFAIL C17 thread {} popped {} which was never pushed", o.tid, v)),
+                Some(s) if s > o.end => out.push(format!("PROPFAIL C17 thread {} popped {} before its push began", o.tid, v)),
+                _ => {}
+            }
+            if popper(v).len() > 1 {
+                out.push(format!("PROPFAIL C17 value {} was popped {} times", v, popper(v).len()));
+            }
+            if o.kind == 2 && v >= o.arg {
+                out.push(format!("PROPFAIL C17 thread {}: try_pop_if(|x| x < {}) returned {} which its predicate rejects", o.tid, o.arg, v));
+            }
+        }
+    }
+    // FIFO: v1 pushed entirely before v2 => v2 is not removed unless v1 was removed first
+    let pushes: Vec<&O> = ops.iter().filter(|o| o.kind == 0).collect();
+    for p1 in &pushes {
+        for p2 in &pushes {
+            if p1.end < p2.start {
+                let r1 = popper(p1.arg);
+                let r2 = popper(p2.arg);
+                if let Some(q2) = r2.first() {
+                    match r1.first() {
+                        None => out.push(format!("PROPFAIL C17 {} was pushed before {} but {} was popped (by thread {}) while {} never was", p1.arg, p2.arg, p2.arg, q2.tid, p1.arg)),
+                        Some(q1) if q2.end < q1.start => out.push(format!("PROPFAIL C17 {} was pushed before {} but popped after it (FIFO order)", p1.arg, p2.arg)),
+                        _ => {}
+                    }
+                }
+            }
+        }
+    }
+    // None although an acceptable element was in the queue during the whole call
+    for o in ops.iter().filter(|o| o.kind != 0 && o.res.is_none()) {
+        let present_throughout: Vec<usize> = pushes
+            .iter()
+            .filter(|p| p.end < o.start && popper(p.arg).iter().all(|q| q.start > o.end))
+            .map(|p| p.arg)
+            .collect();
+        if present_throughout.is_empty() {
+            continue;
+        }
+        // every element that may have been in the queue at some instant of the call
+        let possibly: Vec<usize> = ops
+            .iter()
+            .filter(|p| p.kind == 0 && p.start < o.end && popper(p.arg).iter().all(|q| q.end > o.start))
+            .map(|p| p.arg)
+            .chain(open.values().filter(|p| p.kind == 0 && p.start < o.end).map(|p| p.arg))
+            .collect();
+        let acceptable = |v: usize| o.kind == 1 || v < o.arg;
+        if possibly.iter().all(|&v| acceptable(v)) {
+            out.push(format!(
+                "PROPFAIL C17 thread {}: {} returned None although {:?} stayed in the queue during the whole call and every element it could have seen is acceptable",
+                o.tid,
+                if o.kind == 1 { "try_pop".to_string() } else { format!("try_pop_if(|x| x < {})", o.arg) },
+                present_throughout
+            ));
+        }
+    }
+    out.truncate(3);
+    out
 }
